@@ -8,7 +8,8 @@ from extract import c16_ast, c16_gen as G, c16_dot as D, c16_oracle as O
 ID = "C16"
 SRC_PIPE = "mlinsights/helpers/pipeline.py"
 SRC_VIS = "mlinsights/plotting/visualize.py"
-LEAN_TARGETS = ["MlVerif.Gen.C16", "MlVerif.Model.Pipeline", "MlVerif.Lemmas.Pipeline", "MlVerif.Properties.C16"]
+LEAN_TARGETS = ["MlVerif.Gen.C16", "MlVerif.Model.Pipeline", "MlVerif.Lemmas.Pipeline", "MlVerif.Lemmas.PipelineReach",
+                "MlVerif.Properties.C16"]
 PROPERTY_FILE = "MlVerif/Properties/C16.lean"
 DRIVER = "Drivers/C16.lean"
 TRUSTED = [
@@ -37,6 +38,10 @@ ASSUMPTIONS = [
     "FeatureUnion, under named ColumnTransformer entries, first step of a pipeline); named columns below integer "
     "entries or after a 'passthrough' step make pipeline2dot raise AttributeError (reported, not generated)",
     "column positions are non-negative integers; column lists are non-empty",
+    "reachability of the final outputs (dot_outputs_reachable) is stated under two explicit decidable hypotheses the "
+    "generated cases satisfy: the schema is not empty (with no input column nothing is reachable: Lean example) and "
+    "the named columns of the ColumnTransformers are columns of the schema (namedIn; otherwise an edge starts at an "
+    "undeclared raw name: Lean example). A ColumnTransformer entry selecting zero columns needs no exclusion",
 ]
 RULE = ("a seeded program generator builds each pipeline once as a spec and renders it as a scikit-learn object and as "
         "a Lean term: (1) arbitrary nesting (depth<=3 quick/<=6 thorough, 'drop' included) -> enumerate + pipeline2str "
@@ -47,9 +52,11 @@ LEVEL_TEXT = ("Lean proofs by structural induction over the inductive type of pi
               "enumeration (pre-order, distinct coordinates, length = depth), the text (one line per model, indent "
               "3*(len-1) regenerated from the source), the abstract instrumented interpreter (same output, recorded "
               "inputs/outputs chain) and the structured DOT graph (acyclic, endpoints declared, every step and column "
-              "appears). Reachability of the final outputs is proved for graphs in which every drawn step has an "
-              "input (partial). The model is tied to the working tree by regenerated definitions and an exact "
-              "differential run on generated programs.")
+              "appears, and the final outputs - every port of the record of the last drawn step - are reachable from "
+              "the ports of sch0: theorem dot_outputs_reachable, for every pipeline on every non-empty schema that "
+              "contains the named columns the ColumnTransformers use, with no condition on the drawn graph; the "
+              "input-less Identity of an empty passthrough remainder is covered). The model is tied to the working "
+              "tree by regenerated definitions and an exact differential run on generated programs.")
 LEVEL_NOTE = ("the bound-method replacement of alter_pipeline_for_debugging and scikit-learn's execution are validated "
               "by correspondence/search, not proved")
 TECHNIQUE = ("Lean 4 proof (structural induction over pipelines) + AST-regenerated definitions + differential "
@@ -199,7 +206,7 @@ def correspond(ctx):
         corr.hit("dot:schema=%s" % kind)
         corr.hit("dot:error:%s" % impl if " " not in impl and "=" not in impl else "dot:graph")
         if "=" in impl:
-            # hypothesis of dot_outputs_reachable_partial: every drawn step has an input
+            # dot_outputs_reachable covers both classes; the graph-level dot_outputs_reachable_partial needs wellFed
             nodes = [part.split("~") for part in impl.split(" ; ")[1:]]
             corr.hit("dot:every-step-has-input" if all(len(n) > 2 and n[2] != "-" for n in nodes)
                      else "dot:input-less-step(empty remainder)")
@@ -236,7 +243,8 @@ def correspond(ctx):
     out = run_driver(DRIVER, lines)
     for (op, inp, impl), got in zip(expect, out):
         if op == "dothyp":
-            # hypothesis of dot_outputs_reachable_partial, evaluated by the model on this very case
+            # hypothesis of the graph-level dot_outputs_reachable_partial (no longer needed by dot_outputs_reachable),
+            # still evaluated by the model on this very case
             corr.hit("dot:" + got.replace(" ", ","))
             continue
         if got != impl:
